@@ -56,6 +56,15 @@ def classify(c: dict, obs: str, detail: str) -> str | None:
             return "C19-F9"
     if fam == "gelu" and c["form"] == "tanh" and fired(obs) and F.Gelu.consts(c)[0][0] != 3.0:
         return "C19-F8"
+    if fam == "mha" and c.get("rotary") and c.get("rot_il") == 1 and c["Dh"] > 2 and "MultiHeadAttention" in obs:
+        return "C19-F14"
+    if fam == "gqa" and obs.startswith("count=1/1"):
+        if c["miss"] == "mask_op":
+            return "C19-F13"
+        if c["Dh"] % 16 != 0:
+            return "C19-F11"
+    if fam == "mhab" and obs.split(" ")[0].endswith("/1") and c["qb"] and c["qb_shape"] != "D":
+        return "C19-F12"
     if fam == "rms" and fired(obs):
         if c["scale_cast"] and c["sdt"] != c["tdt"] and ",scale)" in obs:
             return "C19-F6"
@@ -126,8 +135,8 @@ def run_case(c: dict, nrng, stats: Counter, numeric: bool = True, e2e: bool = Fa
     try:
         cnt = fam.fuse(model)
         obs = L.observe(model, cnt, fam.ops, known)
-        if not fired(obs):
-            obs = obs.split(" ")[0]
+        if not fired(obs) or (getattr(fam, "key_op", None) and fam.key_op not in obs):
+            obs = obs.split(" ")[0]  # nothing (or not the family's own rule) fired: only the counts are compared
     except Exception as e:  # the rewriter raised: neither "unchanged" nor "fused"
         obs = "EXC"
         stats["fuse_raised"] += 1
